@@ -286,4 +286,90 @@ theorem stepAct_frame (T : Tables) (cfg : Cfg) (s s' : St) (b : UInt8) (c : Bool
     rw [← h.1]
     simp [Keeps])
 
+
+/-! ## The Go switches against the model -/
+
+open Gen.JsonSwitch in
+/-- labels of a switch in source order -/
+def labelsOf (cs : List Gen.JsonSwitch.Case) : List String := cs.flatMap (·.labels)
+
+inductive Machine where
+  | parser      -- oj.Parser, gen.Parser: build values on `stack` through `add`
+  | tokenizer   -- oj.Tokenizer: no build stack, values go to the handler
+  | validator   -- oj.Validator: no values; its `stack` is the container stack
+  deriving DecidableEq
+
+/-- what counts, in a Go case clause, as carrying out the model's change of a field: an assignment to
+one of `writes`, or a call of one of `calls` on the receiver; `none`: the machine has no such state -/
+def evidence : Machine → Fld → Option (List String × List String)
+  | _, .mode => some (["mode"], [])
+  | _, .nextMode => some (["nextMode"], [])
+  | _, .ri => some (["ri"], [])
+  | _, .line => some (["line"], [])
+  | _, .nl => some (["noff"], [])
+  | .parser, .starts => some (["starts"], [])
+  | .parser, .stack => some (["stack"], ["add"])
+  | .parser, .tmp => some (["tmp"], [])
+  | .parser, .rn => some (["rn"], [])
+  | .parser, .num => some (["num"], ["num"])
+  | .tokenizer, .starts => some (["starts"], [])
+  | .tokenizer, .stack => some ([], ["handler", "handleNum"])
+  | .tokenizer, .tmp => some (["tmp"], [])
+  | .tokenizer, .rn => some (["rn"], [])
+  | .tokenizer, .num => some (["num"], ["num"])
+  | .validator, .starts => some (["stack"], [])
+  | .validator, .stack => none
+  | .validator, .tmp => none
+  | .validator, .rn => none
+  | .validator, .num => none
+
+def Act.ofName (n : String) : Option Act := decodeOrder.find? (fun a => a.goName == n)
+
+/-- no dropped write: every field the model's branch changes is written, or handed to the method
+that writes it, in the Go case -/
+def caseCovers (m : Machine) (c : Gen.JsonSwitch.Case) : Bool :=
+  c.labels.all fun l =>
+    match Act.ofName l with
+    | none => false
+    | some a => a.touches.all fun f =>
+      match evidence m f with
+      | none => true
+      | some (ws, ks) => c.writes.any (fun w => ws.contains w) || c.calls.any (fun k => ks.contains k)
+
+/-- scratch buffers and fast-path extras a Go case may write beyond the model's fields -/
+def extraWrites (m : Machine) (a : Act) : List String :=
+  match m, a with
+  | .parser, .openObject => ["maps", "mi"]      -- reuse cache of map values
+  | .parser, .keyQuote => ["stack"]             -- fast path: the whole key is in the buffer
+  | .parser, .uOk => ["runeBytes"]
+  | .tokenizer, .uOk => ["runeBytes"]
+  | _, _ => []
+
+/-- no stray write: the Go case assigns only fields the model's branch changes, and the extras -/
+def caseWithin (m : Machine) (c : Gen.JsonSwitch.Case) : Bool :=
+  c.labels.all fun l =>
+    match Act.ofName l with
+    | none => false
+    | some a => c.writes.all fun w =>
+      (extraWrites m a).contains w ||
+      a.touches.any fun f =>
+        match evidence m f with
+        | none => false
+        | some (ws, _) => ws.contains w
+
+theorem ojParser_order : labelsOf Gen.JsonSwitch.ojParser = decodeOrder.map Act.goName := by decide
+theorem ojValidator_order : labelsOf Gen.JsonSwitch.ojValidator = decodeOrder.map Act.goName := by decide
+theorem ojTokenizer_order : labelsOf Gen.JsonSwitch.ojTokenizer = decodeOrder.map Act.goName := by decide
+theorem genParser_order : labelsOf Gen.JsonSwitch.genParser = decodeOrder.map Act.goName := by decide
+
+theorem ojParser_no_dropped_write : Gen.JsonSwitch.ojParser.all (caseCovers .parser) = true := by decide
+theorem genParser_no_dropped_write : Gen.JsonSwitch.genParser.all (caseCovers .parser) = true := by decide
+theorem ojTokenizer_no_dropped_write : Gen.JsonSwitch.ojTokenizer.all (caseCovers .tokenizer) = true := by decide
+theorem ojValidator_no_dropped_write : Gen.JsonSwitch.ojValidator.all (caseCovers .validator) = true := by decide
+
+theorem ojParser_no_stray_write : Gen.JsonSwitch.ojParser.all (caseWithin .parser) = true := by decide
+theorem genParser_no_stray_write : Gen.JsonSwitch.genParser.all (caseWithin .parser) = true := by decide
+theorem ojTokenizer_no_stray_write : Gen.JsonSwitch.ojTokenizer.all (caseWithin .tokenizer) = true := by decide
+theorem ojValidator_no_stray_write : Gen.JsonSwitch.ojValidator.all (caseWithin .validator) = true := by decide
+
 end OjgVerif.Json
